@@ -537,7 +537,7 @@ def check_C13():
 
 def check_C16():
     ctx = Ctx("C16"); cov = {}
-    broken = proof_part(ctx, "props/C16.v", ["proofs/X_basic.v", "proofs/X_inv.v", "proofs/X_c13.v", "proofs/X_c16.v", "proofs/X_inst.v", "XMachine.v"], cov)
+    broken = proof_part(ctx, "props/C16.v", ["proofs/X_basic.v", "proofs/X_inv.v", "proofs/X_c13.v", "proofs/X_c16.v", "proofs/X_inst.v", "proofs/X_own.v", "proofs/X_chain.v", "proofs/X_c04.v", "proofs/X_lin.v", "proofs/X_read.v", "XMachine.v"], cov)
     solo_part(ctx, "C16", cov)
     def sel(b):
         sc, r, why = b
@@ -560,7 +560,7 @@ def check_C16():
 
 def check_C04():
     ctx = Ctx("C04"); cov = {}
-    broken = proof_part(ctx, "props/C04.v", ["proofs/X_basic.v", "proofs/X_inv.v", "proofs/X_c13.v", "proofs/X_inst.v", "proofs/C11_table.v", "proofs/C11_lists.v", "XMachine.v", "TableModel.v"], cov)
+    broken = proof_part(ctx, "props/C04.v", ["proofs/X_basic.v", "proofs/X_inv.v", "proofs/X_c13.v", "proofs/X_inst.v", "proofs/X_own.v", "proofs/X_chain.v", "proofs/X_c04.v", "proofs/X_lin.v", "proofs/X_resize.v", "proofs/C11_table.v", "proofs/C11_lists.v", "XMachine.v", "TableModel.v"], cov)
     n = N(ctx, 1500, 25000)
     from . import solo
     fam = solo.resize_families(ctx.tier, [("MapOf_int", "default"), ("MapOf_int", "const"), ("MapOf_str", "default")])
@@ -577,7 +577,7 @@ def check_C04():
 
 def check_C03():
     ctx = Ctx("C03"); cov = {}
-    broken = proof_part(ctx, "props/C03.v", ["proofs/C11_table.v", "proofs/C11_lists.v", "TableModel.v"], cov)
+    broken = proof_part(ctx, "props/C03.v", ["proofs/C11_table.v", "proofs/C11_lists.v", "proofs/X_maps.v", "proofs/XS_inv.v", "TableModel.v", "XMachineS.v"], cov)
     n = N(ctx, 2000, 30000)
     from . import solo
     fam = solo.resize_families(ctx.tier, [("Map", None)])
@@ -592,7 +592,7 @@ def check_C03():
 
 def check_C14():
     ctx = Ctx("C14"); cov = {}
-    broken = proof_part(ctx, "props/C14.v", ["proofs/X_basic.v", "proofs/X_inv.v", "proofs/X_c13.v", "proofs/X_c14.v", "XMachine.v"], cov) if os.path.exists(os.path.join(C.COQ, "props/C14.v")) else []
+    broken = proof_part(ctx, "props/C14.v", ["proofs/X_basic.v", "proofs/X_inv.v", "proofs/X_c13.v", "proofs/X_c16.v", "proofs/X_own.v", "XMachine.v"], cov) if os.path.exists(os.path.join(C.COQ, "props/C14.v")) else []
     res = run_native(ctx, "race")
     j = res.get("raw") or {}
     cov["native_race"] = dict(race_enabled=j.get("race_enabled"), workloads=len(j.get("workloads", [])), race_reports=j.get("race_reports"),
